@@ -222,7 +222,37 @@ pub fn run(ctx: &Ctx, out: &mut CaseOut) {
                 match solve(&mut *s2, &db, &peeled) {
                     Outcome::Answer(b) => {
                         let b = disp(&b);
-                        if &b != a {
+                        // Both answers above were obtained on solvers that had answered the earlier goals of the sequence. If the
+                        // two programs agree when the goal is put to *fresh* solvers, the difference is an effect of what
+                        // the solvers solved before (C10's subject: F11, F12, F20, F36), not of the logged program.
+                        let nonground_seen = std::cell::Cell::new(false);
+                        let history_only = &b != a && {
+                            let fresh_on = |lp: &Loaded| -> Option<String> {
+                                with_program(lp, || {
+                                    let goal = lower_goal_text(lp, g).ok()?;
+                                    use chalk_solve::ext::GoalExt;
+                                    let pg = goal.into_peeled_goal(chalk_integration::interner::ChalkIr);
+                                    let fdb = FaultDb::new(&*lp.program, solver_name(&choice));
+                                    fdb.budget.set(300_000);
+                                    let mut fs = choice.into_solver();
+                                    let o = solve(&mut *fs, &fdb, &pg);
+                                    if fdb.nonground_coinductive.get() {
+                                        nonground_seen.set(true);
+                                    }
+                                    match o {
+                                        Outcome::Answer(x) => Some(disp(&x)),
+                                        _ => None,
+                                    }
+                                })
+                            };
+                            match (fresh_on(&l), fresh_on(&l2)) {
+                                (Some(x), Some(y)) => x == y,
+                                _ => false,
+                            }
+                        };
+                        if history_only {
+                            out.count("differs-only-on-warm-solvers(fresh solvers agree; C10's subject)");
+                        } else if &b != a {
                             // F22: an item that matters for this goal never crossed the database boundary (e.g. the impl that made
                             // impl_provided_for answer `true`, or a trait that was only ever mentioned by id)
                             let toks = crate::props::c24::tokenize(g);
@@ -234,6 +264,9 @@ pub fn run(ctx: &Ctx, out: &mut CaseOut) {
                                 Some("logging:relevant-item-never-served")
                             } else if f12 {
                                 Some("slg:trivial-answer-green-cut-order")
+                            } else if solver_name(&choice) == "slg" && nonground_seen.get() {
+                                // F39: a coinductive subgoal with unknowns was posed; SLG's answer then depends on clause order
+                                Some("slg:coinductive-nonground:order-dependent")
                             } else if solver_name(&choice) == "slg" && ((a == "No possible solution" && b != "No possible solution" && (orig_stale(g) || seq_stale(&l, gi_of(g)))) || (b == "No possible solution" && a != "No possible solution" && (crate::common::fresh_slg_stale(&l2, &peeled) || seq_stale(&l2, gi_of(g)))) || (a.starts_with("Ambiguous") != b.starts_with("Ambiguous") && a.starts_with("Unique") != b.starts_with("Unique") && (seq_stale(&l, gi_of(g)) || seq_stale(&l2, gi_of(g))))) {
                                 // F11: the two programs list items in different orders, and one of the two searches lost the answer
                                 Some("slg:stale-delayed-answer-table")
